@@ -17,6 +17,7 @@ import DispensoVerif.Model.ParFor
 import DispensoVerif.Model.ForEach
 import DispensoVerif.Model.PoolAlloc
 import DispensoVerif.Model.CpuSet
+import DispensoVerif.Model.Graph
 
 /-! Handlers of the dvdriver line protocol. Core Lean only. -/
 namespace Driver
@@ -47,6 +48,7 @@ structure St where
   arena : Arena.Seq.St := Arena.Seq.St.init
   palloc : PoolAlloc.Seq.St := PoolAlloc.Seq.St.init 1
   cpuset : CpuSet.Set := []
+  graph : Graph.G := Graph.G.init false
 
 def St.init : St := {}
 
@@ -371,6 +373,37 @@ def cpusetH (st : St) (args : List String) : St × String :=
       | _, _ => (st, "bad-op")
   | _ => (st, "bad-op")
 
+/-- C30/C31 graphs: `graph reset b|addSubgraph|addNode s|dep n p|bidep n p|clear s|setAll|setInc n|prop` → ok / id;
+    `graph state` → `id numPred inc deps…;` per live node; `graph exec` → run order; `graph execset` → sorted run set -/
+def graphH (st : St) (args : List String) : St × String :=
+  match args with
+  | opn :: rest =>
+    match nats rest with
+    | none => (st, "bad-op")
+    | some ns =>
+      let g := st.graph
+      let showL (l : List Nat) : String := l.foldl (fun acc x => acc ++ " " ++ toString x) ""
+      match opn, ns with
+      | "reset", [b] => ({ st with graph := Graph.G.init (decide (b ≠ 0)) }, "ok")
+      | "addSubgraph", [] => let (g', i) := Graph.addSubgraph g; ({ st with graph := g' }, toString i)
+      | "addNode", [s] => let (g', i) := Graph.addNode g s; ({ st with graph := g' }, toString i)
+      | "dep", [n, p] => ({ st with graph := Graph.dependsOn g n p }, "ok")
+      | "bidep", [n, p] => ({ st with graph := Graph.biPropDependsOn g n p }, "ok")
+      | "clear", [s] => ({ st with graph := Graph.clearSubgraph g s }, "ok")
+      | "setAll", [] => ({ st with graph := Graph.setAllNodesIncomplete g }, "ok")
+      | "setInc", [n] => ({ st with graph := Graph.setIncomplete g n }, "ok")
+      | "prop", [] => ({ st with graph := Graph.forwardPropagate g }, "ok")
+      | "state", [] =>
+        (st, (Graph.allNodes g).foldl (fun acc id =>
+          let n := g.node id
+          acc ++ s!"{id} {n.numPred} {if Graph.completed n then "C" else toString n.inc}" ++ showL n.dependents ++ ";") "S ")
+      | "exec", [] => let (g', log) := Graph.execute g; ({ st with graph := g' }, "R" ++ showL log)
+      | "execset", [] =>
+        let (g', log) := Graph.execute g
+        ({ st with graph := g' }, "R" ++ showL (log.toArray.qsort (· < ·)).toList)
+      | _, _ => (st, "bad-op")
+  | _ => (st, "bad-op")
+
 def parforPlanH (args : List String) : String :=
   match ints args with
   | some [bits, sg, start, stop, chunk, mt, wait, minItems, g, pool, recur] =>
@@ -475,6 +508,7 @@ def dispatch (st : St) : List String → St × String
   | "foreach" :: rest => (st, foreachH rest)
   | "pallocseq" :: rest => pallocH st rest
   | "cpuset" :: rest => cpusetH st rest
+  | "graph" :: rest => graphH st rest
   | "parforplan" :: rest => (st, parforPlanH rest)
   | "trace" :: "begin" :: rest =>
     let (s, r) := traceBegin rest
